@@ -217,7 +217,7 @@ def generate(ctx):
         if ctx.mine(n):
             yield 'table', {'Z': key[0], 'A': key[1]}
     # 2. every row on the stratified grid, then log-uniform random points
-    nrandom = ctx.scale(12, 1900)
+    nrandom = ctx.scale(200, 6000)
     for n, row in enumerate(T.rows):
         if not ctx.mine(n):
             continue
@@ -230,7 +230,7 @@ def generate(ctx):
             c.update(row=row.index, src='random')
             yield 'row', c
     # 3. relation monitors per target nuclide
-    nrel = ctx.scale(3, 40)
+    nrel = ctx.scale(20, 150)
     for n, key in enumerate(sorted(T.by_iso)):
         if not ctx.mine(n):
             continue
@@ -239,7 +239,7 @@ def generate(ctx):
             c.update(Z=key[0], A=key[1], k=10 ** rng.uniform(-2, 2), t2=c['exposure'] * (1.01 + rng.random()))
             yield 'relations', c
     # 4. Sample workloads
-    for _ in range(ctx.scale(80, 500)):
+    for _ in range(ctx.scale(250, 1500)):
         c = _random_env(rng)
         c['atoms'] = _random_atoms(rng, T, _state['mm'])
         c['abundance'] = rng.choice(['NIST', 'IAEA'])
